@@ -369,6 +369,16 @@ def shortest_path_history(ctx, rng):
                 st.grid[wy, wx] = Floor()
                 st.grid[fy, fx] = Wall()
             questions.append((s_b, Action.MOVE_FORWARD, ns_b))
+        # a sibling question outside the documented precondition: the same walkable layout with a second object of the type
+        # further on in the grid (today that is refused; whatever the answer is, it must not change the answers to the others)
+        later = [(yy, xx) for yy in range(h) for xx in range(w) if type(s.grid[yy, xx]) is Floor and (yy, xx) > (ey, ex)
+                 and (yy, xx) not in ((y, x), (y2, x2))]
+        if later:
+            s_m, ns_m = dyndrive.copy_state(s), dyndrive.copy_state(ns)
+            my, mx = rng.choice(later)
+            for st in (s_m, ns_m):
+                st.grid[my, mx] = Exit()
+            questions.append((s_m, Action.MOVE_FORWARD, ns_m))
     getattr(reward_fs.dijkstra, 'cache_clear', lambda: None)()
     truth = []
     for q in questions:
@@ -381,7 +391,7 @@ def shortest_path_history(ctx, rng):
             ctx.ev()
             ctx.hit('history.shortest_path')
             got = call_real(fn, *questions[i])
-            if got[0] != truth[i][0] or (got[0] and got[1] != truth[i][1]):
+            if got[0] != truth[i][0] or (got[0] and got[1] != truth[i][1]) or (not got[0] and type(got[1]) is not type(truth[i][1])):
                 ctx.violation('history', 'getting_closer_shortest_path.depends_on_cache_history',
                               f'shortest-path reward for question {i} is {got[1]!r} after other queries but {truth[i][1]!r} on a cold cache',
                               'sp_case', {'question': i, 'state': enc.state_to_json(questions[i][0]),
